@@ -538,6 +538,22 @@ theorem while_nested_block_counterexample :
     (modelNs wWhileNested).map (fun ns => ns.calls) = some [] := by decide +kernel
 
 
+/-- `Device(DEV0){} Scope(\DEV0){ Scope(DEV0){Name(N000,1)} Device(DEV0){} }`: when `Scope(DEV0)` is met, the only `DEV0` in
+sight is `\DEV0`; the nearer `\DEV0.DEV0` is declared behind it -/
+def wScopeShadow : List (List Obj) :=
+  [[.device 1 (nm "DEV0") [], .scope 1 { root := true, segs := ["DEV0"] }
+      [.scope 1 (nm "DEV0") [.name (nm "N000") (i1 1)], .device 1 (nm "DEV0") []]]]
+
+set_option maxRecDepth 100000 in
+/-- **a single-segment `Scope(NAME)` captured by a LATER declaration (known finding)**: the parser resolves Scope directives
+after the whole table has been read, so the search finds the nearer `\DEV0.DEV0` that the table declares only behind the
+directive; the scoping rules (names are resolved where they are met, tables are loaded in order) put `N000` into `\DEV0`. -/
+theorem scope_search_shadowed_later_counterexample :
+    (namespaceOf wScopeShadow).errors = [] ∧ agrees wScopeShadow = false ∧
+    (namespaceOf wScopeShadow).has ["DEV0", "N000"] = true ∧
+    (modelNs wScopeShadow).map (fun ns => (ns.has ["DEV0", "DEV0", "N000"], ns.has ["DEV0", "N000"])) = some (true, false) := by
+  decide +kernel
+
 /-- `Scope(\){Name(N000,1)}` (repaired: baac752) -/
 def wScopeRoot : List (List Obj) := [[.scope 1 { root := true } [.name (nm "N000") (i1 1)]]]
 
